@@ -227,6 +227,16 @@ class Models:
             g.unit_values = self._mapping_value_is_unit(ann)
             g.record_types = self.record_types(module, ann)
             return g
+        if isinstance(expr, ast.Call) and isinstance(expr.func, ast.Name) and expr.func.id in ("set", "dict") \
+                and not expr.args and not expr.keywords:
+            # an empty process-global container filled at run time: a memo / directory like `{}`
+            g = GlobalMapV(name)
+            g.container = expr.func.id
+            if expr.func.id == "dict":
+                ann = module.global_ann.get(name, "")
+                g.unit_values = self._mapping_value_is_unit(ann)
+                g.record_types = self.record_types(module, ann)
+            return g
         if isinstance(expr, ast.Call):
             f = expr.func
             base = f.value if isinstance(f, ast.Subscript) else f
@@ -663,6 +673,36 @@ class Models:
             return self.str_attr(obj, attr, node)
         if isinstance(obj, ListV):
             return self.list_attr(obj, attr, node)
+        if isinstance(obj, ModuleV) and obj.name == "re":
+            from .regexmodel import flag_value
+            fv = flag_value(attr)
+            if fv is not None:
+                return Num(RF.const(fv), "int")
+            return FuncV(f"re.{attr}")
+        if isinstance(obj, RegexV):
+            if attr in ("fullmatch", "match", "search"):
+                return NativeV(lambda a, k, n, rx=obj, how=attr: self.regex_apply(rx, how, a[0] if a else None, n),
+                               f"pattern.{attr}")
+            if attr == "pattern":
+                return StrV(obj.pattern)
+            if attr == "flags":
+                return Num(RF.const(obj.flags), "int")
+            self.I.unsupported(node, f"pattern attribute {attr}")
+        if isinstance(obj, MatchV):
+            if attr == "group":
+                return NativeV(lambda a, k, n, m=obj: self.match_group(m, a[0] if a else self.num_const(0), n)
+                               if len(a) <= 1 else TupleV([self.match_group(m, x, n) for x in a]), "match.group")
+            if attr == "groups":
+                return NativeV(lambda a, k, n, m=obj: TupleV([self.match_group(m, self.num_const(i), n)
+                                                              for i in range(1, m.profile["groups"] + 1)]), "match.groups")
+            if attr == "groupdict":
+                def gd(a, k, n, m=obj):
+                    d = DictV()
+                    for nm, i in m.profile["names"].items():
+                        d.items.append((StrV(nm), self.match_group(m, self.num_const(i), n)))
+                    return d
+                return NativeV(gd, "match.groupdict")
+            self.I.unsupported(node, f"match attribute {attr}")
         if isinstance(obj, ModuleV):
             short = obj.name.split(".")[-1]
             if obj.name in self.prog.modules:
@@ -856,7 +896,11 @@ class Models:
                         for k_, v_ in pairs:
                             self.st.effects.append(("setitem", g, k_, v_, self.where(n)))
                     return NONE
-                if attr in ("pop", "clear", "popitem"):
+                if attr == "add" and len(args) == 1:
+                    # a set used as a memo of facts: recorded as a store of (key, True)
+                    self.st.effects.append(("setitem", g, args[0], BoolV(True), self.where(n)))
+                    return NONE
+                if attr in ("pop", "clear", "popitem", "discard", "remove"):
                     return OpaqueV(f"{g.name}.{attr}")
                 self.I.unsupported(n, f"map method {attr}")
             return NativeV(mapcall, f"{obj.name}.{attr}")
@@ -867,6 +911,8 @@ class Models:
             if attr == "factor":
                 return Num(RF.atom(("pw10", "prefix:" + obj.name)), "dec")
             return OpaqueV(f"siprefix.{attr}")
+        if isinstance(obj, DateV) and attr in ("year", "month", "day"):
+            return {"year": obj.y, "month": obj.m, "day": obj.d}[attr]
         if isinstance(obj, OpaqueV):
             o = OpaqueV(f"{obj.tag}.{attr}")
             o.attr_of = obj
@@ -1025,6 +1071,20 @@ class Models:
         if attr in ("numerator", "denominator"):
             return Num(self.ufn(attr, v.rf), "int")
         if attr in ("magnitude", "precision"):
+            kind = v.kind
+            if kind == "exact":
+                # decimal or fraction: decided once per value (the same refinement isinstance() uses)
+                key = self.st.norm(v.rf).key()
+                k = self.st.kind_refine.get(key)
+                if k is None:
+                    c = self.I.choose(2, f"kind@{getattr(node, 'lineno', '?')}", ["dec", "frac"])
+                    k = ["dec", "frac"][c]
+                    self.st.kind_refine[key] = k
+                kind = k
+            if kind != "dec":
+                # only the decimal class has these; fractions, ints and floats do not
+                self.flag("missing-attribute", node, f"{kind} number has no attribute {attr}")
+                self.I.raise_("AttributeError", node)
             return Num(self.ufn(attr, v.rf), "int")
         if attr == "adjusted":
             return NativeV(lambda a, k, n: Num(v.rf, v.kind), "adjusted")
@@ -1045,13 +1105,65 @@ class Models:
 
     def str_attr(self, v: StrV, attr, node):
         def method(args, kwargs, n):
+            if v.const is not None and attr in ("split", "rsplit", "partition", "rpartition", "count", "find", "index",
+                                                "startswith", "endswith", "isdigit", "isalpha", "isalnum", "isspace",
+                                                "upper", "lower", "strip", "lstrip", "rstrip", "replace", "zfill",
+                                                "removeprefix", "removesuffix", "title", "capitalize") and not kwargs:
+                # a constant text: Python's own string semantics on constant arguments
+                cargs, ok = [], True
+                for a_ in args:
+                    if isinstance(a_, StrV) and a_.const is not None:
+                        cargs.append(a_.const)
+                    elif isinstance(a_, Num) and self.st.norm(a_.rf).is_const() and self.st.norm(a_.rf).const_value().denominator == 1:
+                        cargs.append(int(self.st.norm(a_.rf).const_value()))
+                    elif isinstance(a_, NoneV):
+                        cargs.append(None)
+                    else:
+                        ok = False
+                if ok:
+                    try:
+                        r_ = getattr(v.const, attr)(*cargs)
+                    except ValueError:
+                        self.I.raise_("ValueError", n)
+                    except TypeError:
+                        self.I.raise_("TypeError", n)
+                    if isinstance(r_, bool):
+                        return BoolV(r_)
+                    if isinstance(r_, int):
+                        return self.num_const(r_)
+                    if isinstance(r_, str):
+                        return StrV(r_)
+                    if isinstance(r_, list):
+                        return ListV([StrV(x) for x in r_])
+                    if isinstance(r_, tuple):
+                        return TupleV([StrV(x) for x in r_])
             if attr in ("lstrip", "rstrip", "strip"):
                 return StrV(None, f"{v.tag}.{attr}")
             if attr in ("split", "rsplit", "partition", "rpartition"):
                 self.st.effects.append(("strsplit", v, attr, list(args), self.where(n)))
+            if attr == "count" and len(args) == 1 and isinstance(args[0], StrV) and args[0].const:
+                # the number of separators in a text: one less than its number of separated fields, which is one
+                # quantity per text and separator however it is asked for (count, split, ...)
+                sep = args[0].const
+                if v.const is not None:
+                    return self.num_const(v.const.count(sep))
+                nf = getattr(v, "n_fields", None)
+                if nf is None or nf[0] != sep:
+                    opts = [1, 2, 3, 4]
+                    c = self.I.choose(len(opts), f"fields({v.tag},{sep!r})", [str(o) for o in opts])
+                    v.n_fields = nf = (sep, opts[c])
+                return self.num_const(nf[1] - 1)
             if attr in ("split", "rsplit"):
                 lv = ListV(None, tag="split", opaque_elem=None)
                 lv.split_of = (v, args)
+                nf = getattr(v, "n_fields", None)
+                if nf is not None and len(args) == 1 and isinstance(args[0], StrV) and args[0].const == nf[0]:
+                    lv.length = nf[1]
+                sep = args[0] if args else None
+                if isinstance(sep, StrV) and sep.const and getattr(self, "text_templates", False):
+                    parts = self.split_template(v, sep.const)
+                    if parts is not None:
+                        return ListV(parts)
                 # str.split(sep) always yields at least one part; split() / split(None) yields none for blank text
                 lo = 0 if (not args or isinstance(args[0], NoneV)) else 1
                 if len(args) >= 2 and isinstance(args[1], Num) and args[1].rf.is_const():
@@ -1108,6 +1220,9 @@ class Models:
             opts = v.len_choices or [0, 1, 2]
             c = self.I.choose(len(opts), f"len({v.tag})@{getattr(node, 'lineno', '?')}", [str(o) for o in opts])
             v.length = opts[c]
+            so = getattr(v, "split_of", None)
+            if so is not None and len(so[1]) == 1 and isinstance(so[1][0], StrV) and so[1][0].const:
+                so[0].n_fields = (so[1][0].const, v.length)     # the text consists of that many separated fields
             if not v.len_choices:
                 from .contracts import known_truth
                 if known_truth(self.st, CmpV("==", Num(atom, "int"), self.num_const(v.length))) is False:
@@ -1195,6 +1310,8 @@ class Models:
     # =============================================================== items
     def get_item(self, obj, key, node):
         I = self.I
+        if isinstance(obj, MatchV):
+            return self.match_group(obj, key, node)
         if isinstance(key, SliceV):
             return self.get_slice(obj, key.lo, key.hi, node)
         if isinstance(obj, StrV) and obj.const is not None and isinstance(key, Num) and self.st.norm(key.rf).is_const():
@@ -1310,6 +1427,8 @@ class Models:
             return a.name == b.name
         if isinstance(a, Num) and isinstance(b, Num):
             return self.truth(CmpV("==", a, b), node)
+        if isinstance(a, DateV) and isinstance(b, DateV):
+            return a is b or all(self.truth(CmpV("==", x, y), node) for x, y in ((a.y, b.y), (a.m, b.m), (a.d, b.d)))
         if isinstance(a, ObjV) and isinstance(b, ObjV) and a.ci is not None and self.prog.lookup(a.ci, "__eq__"):
             if a is b:
                 return True
@@ -1496,6 +1615,15 @@ class Models:
         I = self.I
         st = self.st
         if isinstance(key, ObjV) and key.ci is not None and key.ci.name == "Term":
+            items = key.fields.get("_items")
+            if isinstance(items, TupleV) and len(items.items) == 1 and not getattr(g, "unique", False):
+                e, x = items.items[0].items
+                if isinstance(e, UnitV) and isinstance(x, Num) and st.norm(x.rf).is_const() and \
+                        st.norm(x.rf).const_value() == 1 and st.unit_defs.get(e.uid) == "base":
+                    # a unit without definition is registered, when it is created, under the term made of itself:
+                    # that term is the normal form of no unit created earlier, so the look-up finds the unit itself
+                    st.oracle.trace.append(f"unit_from_term@{getattr(node, 'lineno', '?')}=the base unit itself")
+                    return e
             key = self.term_view(key, node)
         if not isinstance(key, TermV):
             I.unsupported(node, "registry lookup by non-term")
